@@ -15,7 +15,14 @@ RULE = ("exhaustive single assignments on a 2x3 array (4 initial contents with r
         "formatting variants, blocks as lists of str/FmtStr (mixed), as FSArray and as str; fsarray() over lists of <=3 "
         "items with width omitted / fitting / too small and formatting args. non-trivial = distinct histories in which "
         "at least one assignment changes a cell or raises")
-ASSUMPTIONS = ["plain str rows contain no ESC (fmtstr(str) would parse them; covered by C17)",
+LEVEL_NOTE = ("C04_assign_partial / C04_reject_partial / C04_fsarray_partial carry Operand.EscFree for plain-str rows (open "
+              "finding D27) and, for rejection, the complement of D19's footprint; C04_full_statement is refuted by "
+              "C04_D19_witness and C04_D27_witness. Zero-area regions (r0 == r1 or c0 == c1) are OUTSIDE the statement's "
+              "domain: no error is required there, only 'no cell changes' (C04_empty_region_noop, checked by the oracle). "
+              "trusted: Lean kernel + propext/Classical.choice/Quot.sound, the hand-written models (FmtStr core, escape "
+              "parser, Operand, FSArray), extract.py, the wire codec; CPython is modelled not verified")
+ASSUMPTIONS = ["plain str rows containing ESC '[' are IN the domain (the property lists 'lists of str/FmtStr' without exclusion): "
+               "the code parses them and measures them raw (open finding D27); the theorems carry Operand.EscFree",
                "row subscripts are non-negative ints or slices with explicit non-negative bounds (a missing row stop makes "
                "__setitem__ extend the array to sys.maxsize rows); column regions satisfy 0 <= c0 <= c1 <= width "
                "(the statement is silent about columns beyond the width); a[i] = row (int subscript, no tuple) replaces "
@@ -25,7 +32,10 @@ ASSUMPTIONS = ["plain str rows contain no ESC (fmtstr(str) would parse them; cov
                "'blank' = a cell beyond the stored length of its row or an unformatted space (what the padding writes)",
                "a str value is read as the block of its characters (one per row), in the domain only for one-column regions"]
 
+import collections
 BLANK = (" ", ())
+HEIGHT_AFTER_RAISE = collections.Counter()   # (height before, height after) of calls that raised
+RAISED_TYPEERROR = [0]
 FMT_ARGS = [((), {}), (("blue",), {"bold": True}), ((), {"bg": "red", "underline": False}), (("on_cyan", "italic"), {})]
 
 
@@ -61,10 +71,11 @@ def value_rows(v):
 
 
 def enc_value_items(v):
+    """a plain str goes over the wire RAW ('s' + code points): the model converts it as the code does"""
     if v["k"] == "str":
-        return ["s" + wire.enc_chunks([(ch, {})]) for ch in v["s"]]
+        return ["s" + wire.enc_text(ch) for ch in v["s"]]
     if v["k"] == "list":
-        return [("s" + wire.enc_chunks([(it[1], {})])) if it[0] == "s" else ("f" + wire.enc_chunks(it[1])) for it in v["items"]]
+        return [("s" + wire.enc_text(it[1])) if it[0] == "s" else ("f" + wire.enc_chunks(it[1])) for it in v["items"]]
     return ["f" + wire.enc_chunks(r) for r in v["rows"]]
 
 
@@ -116,10 +127,7 @@ def enc_op(op):
 def line(c):
     if c["kind"] == "hist":
         return " ".join(["fsa", str(c["nr"]), str(c["nc"]), "A" + wire.enc_atts(ctor_atts(c["fa"]))] + [enc_op(op) for op in c["ops"]])
-    args, kwargs = FMT_ARGS[c["fa"]]
-    items = []
-    for it in c["strings"]:
-        items.append(wire.enc_fmt(fmtstr(it[1], *args, **dict(kwargs))) if it[0] == "s" else wire.enc_chunks(it[1]))
+    items = [("s" + wire.enc_text(it[1])) if it[0] == "s" else ("f" + wire.enc_chunks(it[1])) for it in c["strings"]]
     return " ".join(["fsarray", wire.enc_optint(c["width"]), "A" + wire.enc_atts(ctor_atts(c["fa"]))] + items)
 
 
@@ -226,8 +234,55 @@ def region_of(op, W):
     return r0, r1, c0, c1
 
 
+def has_esc(it):
+    return it[0] == "s" and "\x1b[" in it[1]
+
+
+def explain_d27(before, W, reg, items):
+    """What setslice_with_length does row by row when a plain-str row is measured RAW (padding, assert, width check)
+    but converted by fmtstr(), which parses it - stated on cells. -> (exception kind or None, predicted rows)"""
+    r0, r1, c0, c1 = reg
+    rows = [list(x) for x in before] + [[] for _ in range(max(0, r1 - len(before)))]
+    new_rows = []
+    for i, it in enumerate(items):
+        row = rows[r0 + i]
+        L = len(row)
+        k = c0 - L if L < c0 else 0
+        raw = (len(it[1]) if it[0] == "s" else sum(len(t) for t, _ in it[1])) + k
+        j = 0
+        if L > c1:
+            j = max(0, c1 - c0 - raw)
+            if raw + j != c1 - c0:
+                return "E:AssertionError", None
+        if it[0] == "s":
+            mid = cells(fmtstr(" " * k + it[1] + " " * j))
+        else:
+            mid = [BLANK] * k + wire.cells_of_chunks(it[1]) + [BLANK] * j
+        res = row[:c0] + mid + row[c1:]
+        if len(res) > W:
+            return "E:ValueError", None
+        new_rows.append(res)
+    return None, rows[:r0] + new_rows + rows[r1:]
+
+
 def check_assign(op, before, after, W, raised):
     """-> list of (what, footprint)"""
+    out = check_assign0(op, before, after, W, raised)
+    v = op["v"]
+    if out and v["k"] == "list" and any(has_esc(it) for it in v["items"]):
+        # D27 footprint: a plain-str row contains ESC '[' and the outcome is exactly what raw-length measuring plus
+        # parsing explains (right row count, non-empty region; everything else stays unlisted)
+        reg = region_of(dict(op, o="S", c=("s", None, None)) if op["o"] == "T" else op, W)
+        if reg is not None and reg[0] < reg[1] and reg[2] < reg[3] and len(v["items"]) == reg[1] - reg[0]:
+            kind, rows = explain_d27(before, W, reg, v["items"])
+            if (kind is not None and raised == kind and not any(cell(before, r, c) != cell(after, r, c)
+                                                                 for r in range(len(after) + 1) for c in range(W + 3))) \
+                    or (kind is None and raised is None and [list(x) for x in after] == rows):
+                out = [(w, "D27" if fp is None else fp) for w, fp in out]
+    return out
+
+
+def check_assign0(op, before, after, W, raised):
     out = []
     H = max(len(before), len(after)) + 1
     changed = [(r, c) for r in range(H) for c in range(W + 3) if cell(before, r, c) != cell(after, r, c)]
@@ -370,10 +425,22 @@ def oracle(c):
         except Exception as e:  # noqa: BLE001
             out.append(("fsarray raised %s" % type(e).__name__, None))
             return out
+        try:
+            shape, rows = (a.shape, a.width, a.height), snapshot(a)
+        except Exception as e:  # noqa: BLE001
+            out.append(("fsarray: reading the result raised %s" % type(e).__name__, None))
+            return out
         if not fits:
             out.append(("fsarray accepted strings longer than width %d" % w, None))
-        elif a.shape != (len(want), w) or a.width != w or a.height != len(want) or snapshot(a) != want:
-            out.append(("fsarray: shape %r rows %r, expected %r rows showing %r" % (a.shape, snapshot(a), (len(want), w), want), None))
+        elif shape != ((len(want), w), w, len(want)) or rows != want:
+            fp = None
+            if any(has_esc(it) for it in c["strings"]) and shape == ((len(want), w), w, len(want)):
+                # D27: width from the raw lengths, rows show the PARSED strs
+                parsed = [cells(fmtstr(it[1], *args, **dict(kwargs))) if it[0] == "s" else wire.cells_of_chunks(it[1])
+                          for it in c["strings"]]
+                if rows == parsed:
+                    fp = "D27"
+            out.append(("fsarray: shape %r rows %r, expected %r rows showing %r" % (shape[0], rows, (len(want), w), want), fp))
         return out
     a = mk_array(c)
     W = c["nc"]
@@ -382,12 +449,21 @@ def oracle(c):
     for k, op in enumerate(c["ops"]):
         before = snapshot(a)
         if op["o"] in ("S", "T", "I"):
-            tok = apply_op(a, op)
+            try:    # observing the array after the call must not raise either
+                tok = apply_op(a, op)
+                after = snapshot(a)
+            except Exception as e:  # noqa: BLE001
+                out.append(("op %d %s: reading the array after the call raised %s" % (k, enc_op(op)[:60], type(e).__name__), None))
+                return out
             raised = None if tok.startswith("ok@") else tok.split("@")[0]
             if op["o"] == "I":
                 continue
-            for what, fp in check_assign(op, before, snapshot(a), W, raised):
+            if raised and len(after) != len(before):
+                HEIGHT_AFTER_RAISE[(len(before), len(after))] += 1     # informational (C04_height), not a violation
+            for what, fp in check_assign(op, before, after, W, raised):
                 out.append(("op %d %s: %s" % (k, enc_op(op)[:60], what), fp))
+            if raised == "E:TypeError":
+                RAISED_TYPEERROR[0] += 1
         else:
             try:
                 res = a[py_idx(op["r"]), py_idx(op["c"])] if op["o"] == "G" else a[py_idx(op["i"])]
@@ -450,9 +526,17 @@ def mk_cases(ctx):
                         for b in blocks:
                             ops = pre + [dict(o="S", r=("s", r0, r1), c=("s", c0, c1), v=dict(k="list", items=b)),
                                          dict(o="G", r=("s", 0, 4), c=("s", 0, 3))]
-                            cases.append(dict(kind="hist", nr=2, nc=3, fa=0, ops=ops))
+                            # the (1,3) initial content runs on FSArray(2, 3, 'blue', bold=True): blank rows carry atts
+                            cases.append(dict(kind="hist", nr=2, nc=3, fa=1 if (l0, l1) == (1, 3) else 0, ops=ops))
                             n0 += 1
         # int subscripts and FSArray / str blocks
+        # plain-str rows containing SGR sequences (finding D27): fitting verbatim, fitting only when parsed, too long
+        for esc in ("\x1b[31mX\x1b[39m", "\x1b[1m", "a\x1b[0mb"):
+            for (r0, r1, c0, c1) in ((0, 1, 0, 3), (0, 1, 0, 1), (1, 2, 1, 3), (2, 3, 0, 2), (0, 2, 0, 3)):
+                items = [("s", esc)] + [("s", "q")] * (r1 - r0 - 1)
+                cases.append(dict(kind="hist", nr=2, nc=3, fa=0,
+                                  ops=pre + [dict(o="S", r=("s", r0, r1), c=("s", c0, c1), v=dict(k="list", items=items))]))
+                n0 += 1
         for r in range(0, 4):
             for cc in range(0, 4):
                 for val in (dict(k="str", s="x"), dict(k="list", items=[("s", "x")]), dict(k="str", s="xy"), dict(k="str", s=""),
@@ -506,6 +590,8 @@ def mk_cases(ctx):
                     v = dict(k="fsa", rows=[row_item(n, r.choice((1, 2)), r.randint(0, 5), ALPHA.upper())[1] for n in lens], w=max(lens + [0]))
                 else:
                     v = dict(k="list", items=[row_item(n, r.choice((0, 1, 2)), r.randint(0, 5), ALPHA.upper()) for n in lens])
+                    if v["items"] and r.random() < 0.05:
+                        v["items"][r.randrange(len(v["items"]))] = ("s", r.choice(["\x1b[32mZ\x1b[39m", "\x1b[4m", "u\x1b[0mv", "\x1b[45mPQ"]))
                 ops.append(dict(o="S", r=ridx, c=cidx, v=v))
                 h = max(h, r1)
             elif p < 0.70:
@@ -533,6 +619,9 @@ def mk_cases(ctx):
         ops.append(dict(o="G", r=("s", 0, h + 1), c=("s", 0, nc)))
         cases.append(dict(kind="hist", nr=nr, nc=nc, fa=r.randint(0, len(FMT_ARGS) - 1), ops=ops))
     # fsarray()
+    for esc in ("\x1b[31mxy\x1b[39m", "\x1b[1m", "a\x1b[0mb"):
+        for width in (None, 2, 12, 20):
+            cases.append(dict(kind="fsarray", strings=[("s", "ab"), ("s", esc)], width=width, fa=(width or 0) % len(FMT_ARGS)))
     pool = [("s", ""), ("s", "ab"), ("s", "abc"), ("f", []), ("f", [("p", {"fg": 31}), ("qr", {"bold": True})]), ("f", [("", {})]),
             ("f", [("wxyz", {"bg": 44})])]
     nf = 0
@@ -579,6 +668,12 @@ def check(ctx):
         ctx.count(c, nontrivial=nontrivial(c, rep), tag=tag(c))
         for what, fp in oracle(c):
             ctx.violation(what, c, fp)
+    ctx.note("observation: a block with the wrong number of rows always raises TypeError, not the intended ValueError - the "
+             "message construction crashes (\"\".join(value) on FmtStr items / \"\\n \".join(<FmtStr rows>)); the "
+             "`raise ValueError` at formatstringarray.py:178 is only reachable for an array without rows; calls that raised "
+             "TypeError this run: %d" % RAISED_TYPEERROR[0])
+    ctx.note("height after a raised assignment (C04_height: rows are extended before validation; 'changes no cell' is read on "
+             "the grid): (before, after) -> count %r" % dict(HEIGHT_AFTER_RAISE.most_common(8)))
     # witness of the recorded finding, replayed on the real code (the Lean side proves them for the model)
     a = FSArray(1, 3)
     a[0:1, 0:1] = ["xz"]
